@@ -76,3 +76,25 @@ FLOWS += [
     Flow("k_flow_gke_get_kek", "_gkdi.py", "GroupKeyEnvelope.get_kek", props=("C03",)),
     Flow("k_flow_gke_new_kek", "_gkdi.py", "GroupKeyEnvelope.new_kek", props=("C03",)),
 ]
+
+# part "codecs" (world coq/Flow/World_gkdi_codecs.v; ties coq/Proofs/Flow_gkdi_codecs_*.v)
+FLOWS += [
+    Flow("k_flow_kdfp_pack", "_gkdi.py", "KDFParameters.pack", props=("C11",)),
+    Flow("k_flow_kdfp_unpack", "_gkdi.py", "KDFParameters.unpack", props=("C11",)),
+    Flow("k_flow_kdfp_hash_algorithm", "_gkdi.py", "KDFParameters.hash_algorithm", props=("C11",)),
+    Flow("k_flow_gke_pack", "_gkdi.py", "GroupKeyEnvelope.pack", props=("C11",)),
+    Flow("k_flow_gke_unpack", "_gkdi.py", "GroupKeyEnvelope.unpack", props=("C11",)),
+    Flow("k_flow_kid_pack", "_blob.py", "KeyIdentifier.pack", props=("C11",)),
+    Flow("k_flow_kid_unpack", "_blob.py", "KeyIdentifier.unpack", props=("C11",)),
+    Flow("k_flow_kid_is_public_key", "_blob.py", "KeyIdentifier.is_public_key", props=("C11",)),
+    Flow("k_flow_getkey_pack", "_gkdi.py", "GetKey.pack", props=("C11",)),
+    Flow("k_flow_getkey_unpack", "_gkdi.py", "GetKey.unpack", props=("C11",)),
+    Flow("k_flow_getkey_unpack_response", "_gkdi.py", "GetKey.unpack_response", props=("C11",)),
+    Flow("k_flow_ffk_pack", "_gkdi.py", "FFCDHKey.pack", props=("C11",)),
+    Flow("k_flow_ffk_unpack", "_gkdi.py", "FFCDHKey.unpack", props=("C11",)),
+    Flow("k_flow_eck_pack", "_gkdi.py", "ECDHKey.pack", props=("C11",)),
+    Flow("k_flow_eck_unpack", "_gkdi.py", "ECDHKey.unpack", props=("C11",)),
+    Flow("k_flow_eck_curve_and_hash", "_gkdi.py", "ECDHKey.curve_and_hash", props=("C11",)),
+    Flow("k_flow_ffp_pack", "_gkdi.py", "FFCDHParameters.pack", props=("C11",)),
+    Flow("k_flow_ffp_unpack", "_gkdi.py", "FFCDHParameters.unpack", props=("C11",)),
+]
